@@ -83,37 +83,40 @@ Record zstate := mkZ {
   cleaned : bool;
   hp : helper;        (* z.cmd: nil / started and running / exited *)
   reader : bool;      (* the read loop of handleZmodemStream is running *)
-  lpend : bool;       (* handleZmodemEvent is still in its initial sleep *)
+  lpend : bool;       (* handleZmodemEvent has not yet finished its grace sleep ("the server may fail immediately") *)
   tcu : bool;         (* cleanup timer armed *)
   tcl : bool;         (* client timer armed *)
   tsv : bool;         (* server timer armed *)
   ksched : bool;      (* an ensureClientExit killer has been started *)
+  gbegun : bool;      (* the goroutine handleZmodemEvent has begun (it is in, or past, its grace sleep) *)
 }.
 
 Definition set_cf (v : bool) (s : zstate) : zstate :=
-  mkZ (upload s) v (sf s) (eo s) (stopped s) (cleaned s) (hp s) (reader s) (lpend s) (tcu s) (tcl s) (tsv s) (ksched s).
+  mkZ (upload s) v (sf s) (eo s) (stopped s) (cleaned s) (hp s) (reader s) (lpend s) (tcu s) (tcl s) (tsv s) (ksched s) (gbegun s).
 Definition set_sf (v : bool) (s : zstate) : zstate :=
-  mkZ (upload s) (cf s) v (eo s) (stopped s) (cleaned s) (hp s) (reader s) (lpend s) (tcu s) (tcl s) (tsv s) (ksched s).
+  mkZ (upload s) (cf s) v (eo s) (stopped s) (cleaned s) (hp s) (reader s) (lpend s) (tcu s) (tcl s) (tsv s) (ksched s) (gbegun s).
 Definition set_eo (v : bool) (s : zstate) : zstate :=
-  mkZ (upload s) (cf s) (sf s) v (stopped s) (cleaned s) (hp s) (reader s) (lpend s) (tcu s) (tcl s) (tsv s) (ksched s).
+  mkZ (upload s) (cf s) (sf s) v (stopped s) (cleaned s) (hp s) (reader s) (lpend s) (tcu s) (tcl s) (tsv s) (ksched s) (gbegun s).
 Definition set_stopped (v : bool) (s : zstate) : zstate :=
-  mkZ (upload s) (cf s) (sf s) (eo s) v (cleaned s) (hp s) (reader s) (lpend s) (tcu s) (tcl s) (tsv s) (ksched s).
+  mkZ (upload s) (cf s) (sf s) (eo s) v (cleaned s) (hp s) (reader s) (lpend s) (tcu s) (tcl s) (tsv s) (ksched s) (gbegun s).
 Definition set_cleaned (v : bool) (s : zstate) : zstate :=
-  mkZ (upload s) (cf s) (sf s) (eo s) (stopped s) v (hp s) (reader s) (lpend s) (tcu s) (tcl s) (tsv s) (ksched s).
+  mkZ (upload s) (cf s) (sf s) (eo s) (stopped s) v (hp s) (reader s) (lpend s) (tcu s) (tcl s) (tsv s) (ksched s) (gbegun s).
 Definition set_hp (v : helper) (s : zstate) : zstate :=
-  mkZ (upload s) (cf s) (sf s) (eo s) (stopped s) (cleaned s) v (reader s) (lpend s) (tcu s) (tcl s) (tsv s) (ksched s).
+  mkZ (upload s) (cf s) (sf s) (eo s) (stopped s) (cleaned s) v (reader s) (lpend s) (tcu s) (tcl s) (tsv s) (ksched s) (gbegun s).
 Definition set_reader (v : bool) (s : zstate) : zstate :=
-  mkZ (upload s) (cf s) (sf s) (eo s) (stopped s) (cleaned s) (hp s) v (lpend s) (tcu s) (tcl s) (tsv s) (ksched s).
+  mkZ (upload s) (cf s) (sf s) (eo s) (stopped s) (cleaned s) (hp s) v (lpend s) (tcu s) (tcl s) (tsv s) (ksched s) (gbegun s).
 Definition set_lpend (v : bool) (s : zstate) : zstate :=
-  mkZ (upload s) (cf s) (sf s) (eo s) (stopped s) (cleaned s) (hp s) (reader s) v (tcu s) (tcl s) (tsv s) (ksched s).
+  mkZ (upload s) (cf s) (sf s) (eo s) (stopped s) (cleaned s) (hp s) (reader s) v (tcu s) (tcl s) (tsv s) (ksched s) (gbegun s).
 Definition set_tcu (v : bool) (s : zstate) : zstate :=
-  mkZ (upload s) (cf s) (sf s) (eo s) (stopped s) (cleaned s) (hp s) (reader s) (lpend s) v (tcl s) (tsv s) (ksched s).
+  mkZ (upload s) (cf s) (sf s) (eo s) (stopped s) (cleaned s) (hp s) (reader s) (lpend s) v (tcl s) (tsv s) (ksched s) (gbegun s).
 Definition set_tcl (v : bool) (s : zstate) : zstate :=
-  mkZ (upload s) (cf s) (sf s) (eo s) (stopped s) (cleaned s) (hp s) (reader s) (lpend s) (tcu s) v (tsv s) (ksched s).
+  mkZ (upload s) (cf s) (sf s) (eo s) (stopped s) (cleaned s) (hp s) (reader s) (lpend s) (tcu s) v (tsv s) (ksched s) (gbegun s).
 Definition set_tsv (v : bool) (s : zstate) : zstate :=
-  mkZ (upload s) (cf s) (sf s) (eo s) (stopped s) (cleaned s) (hp s) (reader s) (lpend s) (tcu s) (tcl s) v (ksched s).
+  mkZ (upload s) (cf s) (sf s) (eo s) (stopped s) (cleaned s) (hp s) (reader s) (lpend s) (tcu s) (tcl s) v (ksched s) (gbegun s).
 Definition set_ksched (v : bool) (s : zstate) : zstate :=
-  mkZ (upload s) (cf s) (sf s) (eo s) (stopped s) (cleaned s) (hp s) (reader s) (lpend s) (tcu s) (tcl s) (tsv s) v.
+  mkZ (upload s) (cf s) (sf s) (eo s) (stopped s) (cleaned s) (hp s) (reader s) (lpend s) (tcu s) (tcl s) (tsv s) v (gbegun s).
+Definition set_gbegun (v : bool) (s : zstate) : zstate :=
+  mkZ (upload s) (cf s) (sf s) (eo s) (stopped s) (cleaned s) (hp s) (reader s) (lpend s) (tcu s) (tcl s) (tsv s) (ksched s) v.
 
 (* the filter: the session the pointer filter.zmodem refers to (or referred to last) and
    whether the pointer is set.  A session the filter has dropped keeps receiving its own
@@ -122,23 +125,24 @@ Definition set_ksched (v : bool) (s : zstate) : zstate :=
 Record fstate := mkF { zs : zstate; ptr : bool }.
 
 Definition new_session (up : bool) : zstate :=
-  mkZ up false false false false false HNone false true false false false false.
+  mkZ up false false false false false HNone false true false false false false false.
 
 (* no session: behaves like a finished one whose pointer is gone *)
 Definition idle : fstate :=
-  mkF (mkZ false false false false true true HNone false false false false false false) false.
+  mkF (mkZ false false false false true true HNone false false false false false false true) false.
 
 Inductive launch_res := LaunchOk | LaunchFail | ChooserErr.
 
 Inductive event :=
 | EvServer (buf : list N)      (* one read of the server's output in wrapOutput *)
 | EvInput (buf : list N)       (* one read of the user's input in wrapInput; [3] is Ctrl-C *)
-| EvLaunch (r : launch_res)    (* handleZmodemEvent wakes up: chooser + launchZmodemCmd outcome *)
+| EvLaunch (r : launch_res)    (* the grace sleep is over: stopped check, then chooser + launchZmodemCmd outcome *)
 | EvHelperOut (buf : list N)   (* one read of the helper's stdout *)
 | EvHelperEOF                  (* the helper's stdout is at EOF *)
 | EvHelperReadErr              (* the read of the helper's stdout fails: cmd.Wait() closed the pipe under the reader *)
 | EvHelperExit (code : Z)      (* cmd.Wait() returns in checkClientExited *)
-| EvCleanupFire | EvClientFire | EvServerFire.
+| EvCleanupFire | EvClientFire | EvServerFire
+| EvGraceBegin.                (* the goroutine handleZmodemEvent begins: stores its writers, starts the grace sleep *)
 
 Inductive msg := MStopped | MSuccess | MExit (code : Z) | MLaunchFail | MChooser | MClientTimeout | MServerTimeout | MReadErr.
 Inductive timer := TCleanup | TClient | TServer.
@@ -156,7 +160,9 @@ Inductive output :=
 | OInput (forwarded : bool)(* what happened to this typed chunk *)
 | OStart (up : bool)       (* a session was created and handleZmodemEvent started *)
 | OArm (t : timer) | OStopT (t : timer)
-| OKill.                   (* ensureClientExit: kill the helper after zmodem_kill_delay_ms *)
+| OKill                    (* ensureClientExit: kill the helper after zmodem_kill_delay_ms *)
+| OLaunchHelper            (* a local rz / sz process was started *)
+| OCrash.                  (* nil dereference in a goroutine without recover: the whole client process dies *)
 
 Definition res := (zstate * list output)%type.
 Definition andthen (r : res) (f : zstate -> res) : res :=
@@ -237,15 +243,19 @@ Definition helper_exit (code : Z) (s : zstate) : res :=
   | _ => (s, [])
   end.
 
-(* handleZmodemEvent after its sleep *)
+(* handleZmodemEvent: the goroutine begins (nothing observable; the stopped check is NOT here) *)
+Definition grace_begin (s : zstate) : res :=
+  if lpend s && negb (gbegun s) then (set_gbegun true s, []) else (s, []).
+
+(* handleZmodemEvent after its grace sleep: only now is [stopped] looked at *)
 Definition launch (fixed : bool) (r : launch_res) (s : zstate) : res :=
-  if negb (lpend s) then (s, []) else
+  if negb (lpend s && gbegun s) then (s, []) else
   let s := set_lpend false s in
   if stopped s then (s, []) else
   match r with
   | ChooserErr => handle_error fixed MChooser s
   | LaunchFail => handle_error fixed MLaunchFail s
-  | LaunchOk => andthen (reset_client (set_reader true (set_hp HRun s))) reset_server
+  | LaunchOk => andthen (andthen (set_reader true (set_hp HRun s), [OLaunchHelper]) reset_client) reset_server
   end.
 
 Definition cleanup_fire (s : zstate) : res :=
@@ -287,9 +297,24 @@ Definition step_gen (fixed : bool) (f : fstate) (e : event) : fres :=
   | EvCleanupFire => lift (ptr f) (cleanup_fire (zs f))
   | EvClientFire => lift (ptr f) (if tcl (zs f) then handle_error fixed MClientTimeout (set_tcl false (zs f)) else (zs f, []))
   | EvServerFire => lift (ptr f) (if tsv (zs f) then handle_error fixed MServerTimeout (set_tsv false (zs f)) else (zs f, []))
+  | EvGraceBegin => lift (ptr f) (grace_begin (zs f))
   end.
 
 Definition step := step_gen true.
+
+(* The session becomes visible to sendInput (filter.zmodem) BEFORE the goroutine
+   handleZmodemEvent has stored the writers it uses.  [step] describes the code with
+   hooks/fix_zmodem_early_ctrl_c.diff (the writers are stored before the pointer is
+   published).  In the code as pinned, a lone Ctrl-C typed in that window reaches
+   handleZmodemError with serverIn == nil: *)
+Definition crash_window (f : fstate) (buf : list N) : bool :=
+  ptr f && list_eqb buf [Consts.zmodem_ctrl_c] && negb (stopped (zs f)) && negb (gbegun (zs f)).
+
+Definition step_pinned (f : fstate) (e : event) : fres :=
+  match e with
+  | EvInput buf => if crash_window f buf then (f, [OCrash]) else step f e
+  | _ => step f e
+  end.
 Definition step_unfixed := step_gen false.
 
 Fixpoint run_gen (fixed : bool) (f : fstate) (evs : list event) : fres :=
@@ -298,6 +323,11 @@ Fixpoint run_gen (fixed : bool) (f : fstate) (evs : list event) : fres :=
   | e :: r => let (f1, o1) := step_gen fixed f e in let (f2, o2) := run_gen fixed f1 r in (f2, o1 ++ o2)
   end.
 Definition run := run_gen true.
+Fixpoint run_pinned (f : fstate) (evs : list event) : fres :=
+  match evs with
+  | [] => (f, [])
+  | e :: r => let (f1, o1) := step_pinned f e in let (f2, o2) := run_pinned f1 r in (f2, o1 ++ o2)
+  end.
 Definition run_unfixed := run_gen false.
 
 (* ---- timed wrapper, used only by the correspondence check ----
@@ -312,6 +342,7 @@ Record scenario := mkSc {
   sc_launch : launch_res;         (* what launching will give *)
   sc_autoexit : option Z;         (* the helper exits by itself at once with this code *)
   sc_dlpath : bool;               (* a default download path is set (adds its delay for downloads) *)
+  sc_greet : list N;              (* what the helper prints right after it started ([] = nothing), as lrzsz does *)
   sc_readerr : list bool;         (* per session: the reader saw the helper's exit as a read error, not as EOF
                                      (a race in the implementation; taken from the observed run) *)
 }.
@@ -364,7 +395,11 @@ Definition clear (i : internal) (p : pend) : pend :=
 Definition internal_events (sc : scenario) (eof : event) (i : internal) : list event :=
   match i with
   | ILaunch => EvLaunch (sc_launch sc) ::
-      match sc_launch sc, sc_autoexit sc with LaunchOk, Some c => [eof; EvHelperExit c] | _, _ => [] end
+      match sc_launch sc with
+      | LaunchOk => (match sc_greet sc with [] => [] | g => [EvHelperOut g] end) ++
+                    (match sc_autoexit sc with Some c => [eof; EvHelperExit c] | None => [] end)
+      | _ => []
+      end
   | IKill => [eof; EvHelperExit (-1)%Z]   (* SIGKILL: ExitCode() = -1; no-ops if already gone *)
   | ICleanup => [EvCleanupFire]
   | IClient => [EvClientFire]
@@ -388,9 +423,15 @@ Definition sessions (os : list output) : nat :=
 Definition eof_event (sc : scenario) (st : tstate) : event :=
   if nth (pred (sessions (t_out st))) (sc_readerr sc) false then EvHelperReadErr else EvHelperEOF.
 
+Definition has_start (os : list output) : bool :=
+  existsb (fun o => match o with OStart _ => true | _ => false end) os.
+
+(* the goroutine of a session that was just created begins at once *)
 Definition apply_events (fixed : bool) (sc : scenario) (t : N) (evs : list event) (st : tstate) : tstate :=
-  let (f', o) := run_gen fixed (t_f st) evs in
-  mkT f' (fold_left (note sc t) o (t_p st)) (t_out st ++ o) (t_evs st ++ evs).
+  let (f0, o0) := run_gen fixed (t_f st) evs in
+  let evs' := if has_start o0 then evs ++ [EvGraceBegin] else evs in
+  let (f', o) := run_gen fixed (t_f st) evs' in
+  mkT f' (fold_left (note sc t) o (t_p st)) (t_out st ++ o) (t_evs st ++ evs').
 
 (* fire the pending internal events due at or before [limit] *)
 Fixpoint drain (fuel : nat) (fixed : bool) (sc : scenario) (limit : N) (st : tstate) : tstate :=
@@ -467,9 +508,12 @@ Definition decode_scripted (e : N * (list N * Z)) : scripted :=
   if k =? 0 then ScServer d else if k =? 1 then ScInput d else if k =? 2 then ScHelperOut d else ScHelperExit c.
 
 (* launch: 0 ok, 1 launch failure, otherwise chooser error *)
-Definition zmodem_run_canon (fixed : bool) (launch : N) (autoexit : option Z) (dl : bool) (readerr : list bool) (horizon : N)
-    (evs : list (N * (N * (list N * Z)))) : (list (N * list N) * list N) * (list bool * (bool * bool)) :=
-  let sc := mkSc (if launch =? 0 then LaunchOk else if launch =? 1 then LaunchFail else ChooserErr) autoexit dl readerr in
+Definition launches (os : list output) : N :=
+  N.of_nat (length (filter (fun o => match o with OLaunchHelper => true | _ => false end) os)).
+
+Definition zmodem_run_canon (fixed : bool) (launch : N) (autoexit : option Z) (dl : bool) (greet : list N) (readerr : list bool) (horizon : N)
+    (evs : list (N * (N * (list N * Z)))) : (list (N * list N) * list N) * (list bool * (bool * (bool * N))) :=
+  let sc := mkSc (if launch =? 0 then LaunchOk else if launch =? 1 then LaunchFail else ChooserErr) autoexit dl greet readerr in
   let st := run_timed fixed sc (map (fun e => (fst e, decode_scripted (snd e))) evs) horizon in
   ((canon_items (t_out st), helper_bytes (t_out st)),
-   (flags_of (zs (t_f st)), (ptr (t_f st), started (t_out st)))).
+   (flags_of (zs (t_f st)), (ptr (t_f st), (started (t_out st), launches (t_out st))))).
